@@ -1197,7 +1197,7 @@ def reaches_cfg(g, a, b):
     return False
 
 # ----------------------------------------------------------------------------
-def analyse(chk):
+def _analyse_own(chk):
     # statement-level helper calls are inlined one level so that the rules see one body per anchored method
     prog = inline.inlined_program(chk.tree, [TR, DK, XE, XE2])
     chk.count("helper calls inlined", sum(m.inlined for m in prog.modules.values()))
@@ -1291,6 +1291,12 @@ def _seed_snapshot(text):
         return None
     text = text.replace(a, a + "        self.Knoise_ = np.diag(noise_nn + self.numerical_epsilon)\n")
     return text.replace(b, "        noise = (sigma_min + x[1] ** 2) * self.Knoise_\n")
+
+
+def analyse(chk):
+    _analyse_own(chk)
+    chk.guard(lambda c_: core.include_findings(c_, 'C15', files=['ciderpress/models/dft_kernel.py'], rules=['pol-kernel', 'param-write'],
+                                               why='K_mm assembled by DFTKernel.get_kctrl must be the same symmetric sum of products as get_k, otherwise fit factorises a different matrix'))
 
 
 def mutants(tree):
